@@ -24,102 +24,108 @@ var commonAssumptions = []string{
 var props = map[string]propSpec{
 	"C02": {
 		QuickShards: 8, ThoroughShards: 16,
-		Rule: "rapid draws operand pairs for Mul/Quo (independent; both coefficients below 2^64; exact-tie products 5^k*u x 2^(k-1)*v; near-tie products and quotients built with modular inverses so that the exact result is cr + 1/2 -/+ tiny; terminating quotients with divisors 2^a*5^b; extreme-word divisors; zero operands) with exponents steered to the flush/subnormal and overflow windows; every pair is evaluated under 6 modes and 6 DefaultRoundingMode values against the exact product / rational quotient rounded by ref.RoundX with the flush rule. Non-trivial = result not exactly representable, or flushed, or overflowing; distinct = distinct (x bits, y bits, op).",
+		Rule:        "rapid draws operand pairs for Mul/Quo (independent; both coefficients below 2^64; exact-tie products 5^k*u x 2^(k-1)*v; near-tie products and quotients built with modular inverses so that the exact result is cr + 1/2 -/+ tiny; terminating quotients with divisors 2^a*5^b; extreme-word divisors; zero operands) with exponents steered to the flush/subnormal and overflow windows; every pair is evaluated under 6 modes and 6 DefaultRoundingMode values against the exact product / rational quotient rounded by ref.RoundX with the flush rule. Non-trivial = result not exactly representable, or flushed, or overflowing; distinct = distinct (x bits, y bits, op).",
 		Assumptions: commonAssumptions,
 	},
 	"C03": {
 		QuickShards: 8, ThoroughShards: 16,
-		Rule: "rapid draws (x, y) for QuoRem with exponent gaps -40..60 (every scaling arm), gaps up to 12287 (quotients with thousands of digits), x = k*y + delta units, same value in another cohort +/- 1 unit, 64-bit fast-path operands, zero dividends and the special classes of the statement; 6 modes each; oracle = big.Int QuoRem at the common exponent (remainder exact, quotient exact or RoundX). Non-trivial = non-zero integer quotient; distinct = distinct (x bits, y bits).",
+		Rule:        "rapid draws (x, y) for QuoRem with exponent gaps -40..60 (every scaling arm), gaps up to 12287 (quotients with thousands of digits), x = k*y + delta units, same value in another cohort +/- 1 unit, 64-bit fast-path operands, zero dividends and the special classes of the statement; 6 modes each; oracle = big.Int QuoRem at the common exponent (remainder exact, quotient exact or RoundX). Non-trivial = non-zero integer quotient; distinct = distinct (x bits, y bits).",
 		Assumptions: commonAssumptions,
 	},
 	"C04": {
 		QuickShards: 8, ThoroughShards: 16,
-		Rule: "rapid draws triples (x, y, z): arbitrary patterns, near-equal values re-encoded in other cohort members +/- one unit at every exponent gap 0..35, zeros/Inf/NaN mixes, equal-length magnitudes; all 9 ordered pairs are checked for Cmp, CmpAbs, Equal, Compare, Min, Max against the exact order, plus IsZero/Sign and transitivity on the triple. Non-trivial = x and y finite, non-zero, same sign and within a factor 10 (scaled coefficients must be compared); distinct = distinct bit triple.",
+		Rule:        "rapid draws triples (x, y, z): arbitrary patterns, near-equal values re-encoded in other cohort members +/- one unit at every exponent gap 0..35, zeros/Inf/NaN mixes, equal-length magnitudes; all 9 ordered pairs are checked for Cmp, CmpAbs, Equal, Compare, Min, Max against the exact order, plus IsZero/Sign and transitivity on the triple. Non-trivial = x and y finite, non-zero, same sign and within a factor 10 (scaled coefficients must be compared); distinct = distinct bit triple.",
 		Assumptions: commonAssumptions,
 	},
 	"C08": {
 		QuickShards: 8, ThoroughShards: 16,
-		Rule: "rapid draws (d, dp): dp near d's own digit positions, -7000..7000, threshold windows (+-6111, +-6145, +-6176), int extremes (MinInt, MaxInt, int32 bounds); tie/near-tie constructor at the rounding position incl. carry chains; values at the top of the range. Round under 6 modes (with the below-one-tenth-quantum flush rule), Ceil, Floor, the four package functions, idempotence, distance <= one quantum, specials unchanged; oracle = exact integer quantisation. Non-trivial = at least one non-zero digit is dropped; distinct = distinct (bits, dp).",
+		Rule:        "rapid draws (d, dp): dp near d's own digit positions, -7000..7000, threshold windows (+-6111, +-6145, +-6176), int extremes (MinInt, MaxInt, int32 bounds); tie/near-tie constructor at the rounding position incl. carry chains; values at the top of the range. Round under 6 modes (with the below-one-tenth-quantum flush rule), Ceil, Floor, the four package functions, idempotence, distance <= one quantum, specials unchanged; oracle = exact integer quantisation. Non-trivial = at least one non-zero digit is dropped; distinct = distinct (bits, dp).",
 		Assumptions: commonAssumptions,
 	},
 	"C12": {
 		QuickShards: 8, ThoroughShards: 16,
-		Rule: "rapid draws 128-bit patterns (uniform, structured finite, zeros, NaN/Inf with payload/garbage); MarshalBinary bytes are decoded by an independent BID decoder and compared with Decompose and String (routes that do not involve MarshalBinary), re-encoded by an independent encoder, round-tripped bit for bit from both the Decimal side and the byte side; byte slices of length 0..64 for the length rule; hand-computed IEEE vectors pin the independent codec. Non-trivial = coefficient above 2^64, steering form, or special with payload bits / length != 16; distinct = distinct pattern.",
+		Fuzz:        []fuzzSpec{{"FuzzC12Binary", 45}},
+		Rule:        "rapid draws 128-bit patterns (uniform, structured finite, zeros, NaN/Inf with payload/garbage); MarshalBinary bytes are decoded by an independent BID decoder and compared with Decompose and String (routes that do not involve MarshalBinary), re-encoded by an independent encoder, round-tripped bit for bit from both the Decimal side and the byte side; byte slices of length 0..64 for the length rule; hand-computed IEEE vectors pin the independent codec. Non-trivial = coefficient above 2^64, steering form, or special with payload bits / length != 16; distinct = distinct pattern.",
 		Assumptions: commonAssumptions,
 	},
 	"C14": {
 		QuickShards: 8, ThoroughShards: 16,
-		Rule: "rapid draws Decimals with nil/short/reusable buffers for Decompose->Compose round trips, and arbitrary parts (form 0..255, sign, coefficient bytes c*10^z+small up to ~400 bytes with leading zero bytes, int32 exponents incl. extremes and compensation windows); oracle: representable iff the exact value has a format member (RoundX toward zero == away), then Compose must return exactly it, otherwise an error. Non-trivial = coefficient longer than 16 bytes or exponent outside -6176..6111 (parts), coefficient above 2^64 (round trip); distinct = distinct arguments.",
+		Fuzz:        []fuzzSpec{{"FuzzC14Compose", 60}},
+		Rule:        "rapid draws Decimals with nil/short/reusable buffers for Decompose->Compose round trips, and arbitrary parts (form 0..255, sign, coefficient bytes c*10^z+small up to ~400 bytes with leading zero bytes, int32 exponents incl. extremes and compensation windows); oracle: representable iff the exact value has a format member (RoundX toward zero == away), then Compose must return exactly it, otherwise an error. Non-trivial = coefficient longer than 16 bytes or exponent outside -6176..6111 (parts), coefficient above 2^64 (round trip); distinct = distinct arguments.",
 		Assumptions: commonAssumptions,
 	},
 	"C11": {
 		QuickShards: 8, ThoroughShards: 16,
-		Rule: "rapid draws New(sig, exp) with sig over int64 (bounds, powers of ten, digit patterns, uniform) and exp over -7000..7000, windows around -6176-25..-6176+20 and 6111-5..6111+45, +-13000 and int extremes; Ldexp(frac, exp) with finite frac over the full range and exp steered so that frac's exponent + exp lands in the subnormal/overflow windows even when exp alone is out of range; Frexp over all patterns. Oracle: exact sig*10^exp / frac*10^exp rounded nearest-even with the 1e-6177 flush rule; Frexp: 0.1<=|frac|<1, frac*10^e == d exactly, Ldexp(Frexp(d)) has d's value. Non-trivial = result clamped/rounded/compensated (New, Ldexp) or finite non-zero argument (Frexp); distinct = distinct arguments.",
+		Rule:        "rapid draws New(sig, exp) with sig over int64 (bounds, powers of ten, digit patterns, uniform) and exp over -7000..7000, windows around -6176-25..-6176+20 and 6111-5..6111+45, +-13000 and int extremes; Ldexp(frac, exp) with finite frac over the full range and exp steered so that frac's exponent + exp lands in the subnormal/overflow windows even when exp alone is out of range; Frexp over all patterns. Oracle: exact sig*10^exp / frac*10^exp rounded nearest-even with the 1e-6177 flush rule; Frexp: 0.1<=|frac|<1, frac*10^e == d exactly, Ldexp(Frexp(d)) has d's value. Non-trivial = result clamped/rounded/compensated (New, Ldexp) or finite non-zero argument (Frexp); distinct = distinct arguments.",
 		Assumptions: commonAssumptions,
 	},
 	"C10": {
 		QuickShards: 8, ThoroughShards: 16,
-		Rule: "rapid draws (a) int64/uint64 values incl. all type bounds for the four exact constructors, (b) big.Int up to 21k bits (random bits <=128/129..256/>256, c*10^k with tie patterns through the 1e18-step reduction, the overflow threshold, powers of two) for FromInt, (c) Decimals near every type bound at scales 0..15, fractions just below an integer, values in (-1,1), huge exponents for Int (nil and pre-loaded receiver) and Int64/Int32/Uint64/Uint32 against exact truncation, (d) Decimals for Rat and the FromRat(Rat(d)) round trip, (e) rationals from digit strings <=34 digits (correct rounding) and from the big.Int generator (2e-33 relative tolerance, neighbours at the edges of the range). Non-trivial = case near a type bound / beyond 2^128 / non-integer / coefficient beyond 113 bits / any rational; distinct = distinct arguments.",
+		Rule:        "rapid draws (a) int64/uint64 values incl. all type bounds for the four exact constructors, (b) big.Int up to 21k bits (random bits <=128/129..256/>256, c*10^k with tie patterns through the 1e18-step reduction, the overflow threshold, powers of two) for FromInt, (c) Decimals near every type bound at scales 0..15, fractions just below an integer, values in (-1,1), huge exponents for Int (nil and pre-loaded receiver) and Int64/Int32/Uint64/Uint32 against exact truncation, (d) Decimals for Rat and the FromRat(Rat(d)) round trip, (e) rationals from digit strings <=34 digits (correct rounding) and from the big.Int generator (2e-33 relative tolerance, neighbours at the edges of the range). Non-trivial = case near a type bound / beyond 2^128 / non-integer / coefficient beyond 113 bits / any rational; distinct = distinct arguments.",
 		Assumptions: commonAssumptions,
 	},
 	"C09": {
 		QuickShards: 8, ThoroughShards: 16,
-		Rule: "rapid draws float64/float32 bit patterns (uniform words, subnormals, 2^k and 2^k(1+2^-52) for every binary exponent, small mantissas, decimal-looking values, top binades, specials) for FromFloat64/32 against the exact binary value rounded nearest-even, plus the Float64/Float32 round trip; Decimals dense in the float range, built next to exact float values and to midpoints between adjacent floats (approached from both sides to the 34th digit), exactly representable values and range edges, for Float64/Float32 against the two neighbouring floats computed with big.Rat; Float at precisions 1..400 with nil and pre-loaded receivers (2^(1-prec) bound, correct rounding from 114 bits); FromFloat of big.Floats with mantissas up to 600 bits and binary exponents up to +-21500 (2e-33 relative, neighbours at the range edges). A sweep checks FromFloat32(f).Float32()==f on a strided sample (quick) or all 2^32 patterns (thorough, sub-check marked exhaustive). Non-trivial = inexact conversion; distinct = distinct argument bits.",
+		Rule:        "rapid draws float64/float32 bit patterns (uniform words, subnormals, 2^k and 2^k(1+2^-52) for every binary exponent, small mantissas, decimal-looking values, top binades, specials) for FromFloat64/32 against the exact binary value rounded nearest-even, plus the Float64/Float32 round trip; Decimals dense in the float range, built next to exact float values and to midpoints between adjacent floats (approached from both sides to the 34th digit), exactly representable values and range edges, for Float64/Float32 against the two neighbouring floats computed with big.Rat; Float at precisions 1..400 with nil and pre-loaded receivers (2^(1-prec) bound, correct rounding from 114 bits); FromFloat of big.Floats with mantissas up to 600 bits and binary exponents up to +-21500 (2e-33 relative, neighbours at the range edges). A sweep checks FromFloat32(f).Float32()==f on a strided sample (quick) or all 2^32 patterns (thorough, sub-check marked exhaustive). Non-trivial = inexact conversion; distinct = distinct argument bits.",
 		Assumptions: append([]string{"math/big.Rat.Float64/Float32 return the nearest float and an exactness flag (used only to find the two neighbouring floats)"}, commonAssumptions...),
 	},
 	"C05": {
 		QuickShards: 8, ThoroughShards: 16,
-		Rule: "rapid draws (i) literals from the documented grammar: sign, digit runs of 1..450 digits (thorough: occasionally 32k-70k digits or leading-zero runs of that length), ties and near-ties after the 34th/35th digit, the 38/39-digit accumulation cut-off, '.' at every position, '_' between digits, exponents with sign/leading zeros/separators steered to the subnormal, flush and overflow windows and to huge magnitudes, NaN/Inf/Infinity in random case; each is parsed under all 6 DefaultRoundingMode values by Parse and UnmarshalText (MustParse and fmt.Sscan under the default mode) and compared with an independent numeral evaluator + RoundX, incl. the ErrRange/Inf rule; (ii) invalid strings: random bytes, random strings over the literal alphabet, a fixed list of near-misses, and 1-2 byte mutations of valid literals, classified by an independent recogniser: must give ErrSyntax (MustParse panics). Non-trivial = literal with more than 35 significant digits, or in a clamp window, or with separators, or invalid; distinct = distinct string.",
+		Fuzz:        []fuzzSpec{{"FuzzC05Parse", 90}},
+		Rule:        "rapid draws (i) literals from the documented grammar: sign, digit runs of 1..450 digits (thorough: occasionally 32k-70k digits or leading-zero runs of that length), ties and near-ties after the 34th/35th digit, the 38/39-digit accumulation cut-off, '.' at every position, '_' between digits, exponents with sign/leading zeros/separators steered to the subnormal, flush and overflow windows and to huge magnitudes, NaN/Inf/Infinity in random case; each is parsed under all 6 DefaultRoundingMode values by Parse and UnmarshalText (MustParse and fmt.Sscan under the default mode) and compared with an independent numeral evaluator + RoundX, incl. the ErrRange/Inf rule; (ii) invalid strings: random bytes, random strings over the literal alphabet, a fixed list of near-misses, and 1-2 byte mutations of valid literals, classified by an independent recogniser: must give ErrSyntax (MustParse panics). Non-trivial = literal with more than 35 significant digits, or in a clamp window, or with separators, or invalid; distinct = distinct string.",
 		Assumptions: append([]string{"signed NaN and doubled underscores are not settled by the statement and are excluded from both the valid and the invalid set (counted as unclaimed-form)", "below 1e-6177 both a signed zero and the directed-mode rounding are accepted"}, commonAssumptions...),
 	},
 	"C06": {
 		QuickShards: 8, ThoroughShards: 16,
-		Rule: "rapid draws 128-bit patterns (uniform, structured finite with every coefficient length and trailing-zero run, values whose leading-digit exponent is around the -4/6 switch, zeros, specials); String, MarshalText, %v, Format/Append('g',-1), ('e',-1) and ('f',-1) are compared byte for byte with strings constructed from the decoded (digits, exponent) by the rule the statement gives, re-read by an independent numeral evaluator, and round-tripped through Parse, UnmarshalText and fmt.Sscan (Equal, same sign; class for NaN/Inf). 'f' at |exponent| >= 300 is sampled at 1/50. Non-trivial = at least two significant digits; distinct = distinct pattern.",
+		Rule:        "rapid draws 128-bit patterns (uniform, structured finite with every coefficient length and trailing-zero run, values whose leading-digit exponent is around the -4/6 switch, zeros, specials); String, MarshalText, %v, Format/Append('g',-1), ('e',-1) and ('f',-1) are compared byte for byte with strings constructed from the decoded (digits, exponent) by the rule the statement gives, re-read by an independent numeral evaluator, and round-tripped through Parse, UnmarshalText and fmt.Sscan (Equal, same sign; class for NaN/Inf). 'f' at |exponent| >= 300 is sampled at 1/50. Non-trivial = at least two significant digits; distinct = distinct pattern.",
 		Assumptions: commonAssumptions,
 	},
 	"C07": {
 		QuickShards: 8, ThoroughShards: 16,
-		Rule: "rapid draws (finite Decimal, spec) with every subset of the flags + - # space 0 in random order, width absent/1..40, precision absent/0..40/'.', verbs eEfFgG; values are built to tie, nearly tie or carry exactly at the digit the spec selects (incl. the empty kept prefix), to sit at the %g switch-over, to be exact float64 images, zeros, or arbitrary. Checked: (1) fmt.Sprintf equals a reference port of fmt/strconv layout over the exact digits, (2) equals fmt's output for the float64 holding the same value where one exists, (3) Decimal.Append with nil / empty-with-capacity / non-empty buffers equals prefix+Sprintf and leaves the caller's bytes alone, (4) package Format/Append agree with the flag-less spec. A separate sub-check validates the reference port against the installed fmt on float64. Non-trivial = rounding drops a digit or a flag/width changes the output; distinct = distinct (bits, spec, buffer shape).",
+		Fuzz:        []fuzzSpec{{"FuzzC07Format", 60}},
+		Rule:        "rapid draws (finite Decimal, spec) with every subset of the flags + - # space 0 in random order, width absent/1..40, precision absent/0..40/'.', verbs eEfFgG; values are built to tie, nearly tie or carry exactly at the digit the spec selects (incl. the empty kept prefix), to sit at the %g switch-over, to be exact float64 images, zeros, or arbitrary. Checked: (1) fmt.Sprintf equals a reference port of fmt/strconv layout over the exact digits, (2) equals fmt's output for the float64 holding the same value where one exists, (3) Decimal.Append with nil / empty-with-capacity / non-empty buffers equals prefix+Sprintf and leaves the caller's bytes alone, (4) package Format/Append agree with the flag-less spec. A separate sub-check validates the reference port against the installed fmt on float64. Non-trivial = rounding drops a digit or a flag/width changes the output; distinct = distinct (bits, spec, buffer shape).",
 		Assumptions: append([]string{"the installed toolchain's fmt (go1.23) is the reference for layout, as the property states; the reference port is re-validated against it on every run"}, commonAssumptions...),
 	},
 	"C13": {
 		QuickShards: 8, ThoroughShards: 16,
-		Rule: "rapid draws Decimals (all patterns, values around the -6/20 switch of the JSON form) for MarshalJSON: the output must match an RFC 8259 number recogniser, denote the value exactly (independent numeral evaluator), carry no superfluous digits, and round-trip directly and through encoding/json inside a struct, slice, map and pointer; NaN/Inf must give *json.UnsupportedValueError. For UnmarshalJSON: RFC 8259 numbers from a grammar (ties after the 34th digit, long digit strings, exponents in the clamp windows and beyond int16) must give the same Decimal as Parse (error when Parse reports ErrRange), directly and inside documents; null leaves the receiver untouched; JSON strings/bools/arrays/objects must be errors; arbitrary bytes and Go float syntax must not panic and, if accepted, must store what Parse gives. Non-trivial = exponent-form output or >= 20 digits (marshal), any number or non-number JSON value (unmarshal); distinct = distinct input.",
+		Fuzz:        []fuzzSpec{{"FuzzC13UnmarshalJSON", 60}},
+		Rule:        "rapid draws Decimals (all patterns, values around the -6/20 switch of the JSON form) for MarshalJSON: the output must match an RFC 8259 number recogniser, denote the value exactly (independent numeral evaluator), carry no superfluous digits, and round-trip directly and through encoding/json inside a struct, slice, map and pointer; NaN/Inf must give *json.UnsupportedValueError. For UnmarshalJSON: RFC 8259 numbers from a grammar (ties after the 34th digit, long digit strings, exponents in the clamp windows and beyond int16) must give the same Decimal as Parse (error when Parse reports ErrRange), directly and inside documents; null leaves the receiver untouched; JSON strings/bools/arrays/objects must be errors; arbitrary bytes and Go float syntax must not panic and, if accepted, must store what Parse gives. Non-trivial = exponent-form output or >= 20 digits (marshal), any number or non-number JSON value (unmarshal); distinct = distinct input.",
 		Assumptions: append([]string{"encoding/json is the reference for JSON validity of whole documents; byte strings that are not JSON values are outside the statement's 'non-numbers' and only the no-panic/no-wrong-value clauses apply"}, commonAssumptions...),
 	},
 	"C15": {
 		QuickShards: 8, ThoroughShards: 16,
-		Rule: "sub-check class-product enumerates completely, for each of the 36 operations in the table (arithmetic with and without mode, QuoRem, Pow, Min/Max, roots, the eight exp/log functions, rounding functions, sign/scale operations, float64 round trip), every pair of 65 operand-class representatives (NaN canonical/signed/payload/signalling/all-ones, +-Inf canonical and with garbage bits, +-0 at four exponents, +-1 in three cohorts, fractions, half-integers, odd/even/large integers): result class (NaN, +-Inf, +-0, +-finite) against the corresponding float64 operation, NaN operands propagated bit for bit, invalid-operation NaNs carrying Payload = Op(class[, class]). Sub-check special repeats this on rapid-drawn members of each class (random cohort members, payloads, garbage bits, dyadic fractions, large exact integers). Sub-check predicates: IsNaN/IsInf/IsZero/Signbit against the independent decoder on generated patterns. Non-trivial = at least one special (NaN/Inf/zero) operand or special pattern; distinct = distinct (operation, operand bits).",
+		Rule:        "sub-check class-product enumerates completely, for each of the 36 operations in the table (arithmetic with and without mode, QuoRem, Pow, Min/Max, roots, the eight exp/log functions, rounding functions, sign/scale operations, float64 round trip), every pair of 65 operand-class representatives (NaN canonical/signed/payload/signalling/all-ones, +-Inf canonical and with garbage bits, +-0 at four exponents, +-1 in three cohorts, fractions, half-integers, odd/even/large integers): result class (NaN, +-Inf, +-0, +-finite) against the corresponding float64 operation, NaN operands propagated bit for bit, invalid-operation NaNs carrying Payload = Op(class[, class]). Sub-check special repeats this on rapid-drawn members of each class (random cohort members, payloads, garbage bits, dyadic fractions, large exact integers). Sub-check predicates: IsNaN/IsInf/IsZero/Signbit against the independent decoder on generated patterns. Non-trivial = at least one special (NaN/Inf/zero) operand or special pattern; distinct = distinct (operation, operand bits).",
 		Assumptions: append([]string{"Go's math package is the reference for special-case results (as the property states), except Min/Max with a NaN operand where the property itself says NaN"}, commonAssumptions...),
 	},
 	"C19": {
 		QuickShards: 8, ThoroughShards: 16,
-		Rule: "sub-check cohort: rapid draws an operation from a table of 56 entry points (arithmetic with and without mode, QuoRem, Pow, comparisons, Min/Max, sign operations, Canonical, rounding with random dp and mode, roots, the eight exp/log functions, Frexp/Ldexp, predicates, all float/integer/rational conversions, String/MarshalText/MarshalJSON/%v, Sprintf and Decimal.Append with random specs, Format/Append with random verb and precision, Decompose) and operands together with a second encoding of each operand's value (another cohort member, a zero with another exponent, NaN with another payload, Inf with other garbage bits); the operation is evaluated on (x,y), (x',y), (x,y'), (x',y') and all results must agree in class, sign, exact value (strings byte for byte, conversion results and ok flags identically, payload strings for invalid operations). Sub-check canonical: Equal/sign, idempotence, expected bits computed from the decoded parts (exponent closest to zero over the whole cohort; canonical NaN/Inf/zero), and Canonical(a)==Canonical(b) iff a Equal b. Non-trivial = the two encodings differ in bits; distinct = distinct argument tuple.",
+		Rule:        "sub-check cohort: rapid draws an operation from a table of 56 entry points (arithmetic with and without mode, QuoRem, Pow, comparisons, Min/Max, sign operations, Canonical, rounding with random dp and mode, roots, the eight exp/log functions, Frexp/Ldexp, predicates, all float/integer/rational conversions, String/MarshalText/MarshalJSON/%v, Sprintf and Decimal.Append with random specs, Format/Append with random verb and precision, Decompose) and operands together with a second encoding of each operand's value (another cohort member, a zero with another exponent, NaN with another payload, Inf with other garbage bits); the operation is evaluated on (x,y), (x',y), (x,y'), (x',y') and all results must agree in class, sign, exact value (strings byte for byte, conversion results and ok flags identically, payload strings for invalid operations). Sub-check canonical: Equal/sign, idempotence, expected bits computed from the decoded parts (exponent closest to zero over the whole cohort; canonical NaN/Inf/zero), and Canonical(a)==Canonical(b) iff a Equal b. Non-trivial = the two encodings differ in bits; distinct = distinct argument tuple.",
 		Assumptions: commonAssumptions,
 	},
 	"C20": {
 		QuickShards: 8, ThoroughShards: 16, Race: true,
-		Rule: "the harness is built with the race detector. Sub-check call: rapid draws one of 82 exported entry points (every method and function of the package, the fmt.Formatter/Scanner paths through Sprintf/Sscan/Sscanf, encoding paths) with arguments from the all-pattern Decimal generator and hostile scalars (ints 0, +-1, +-35, +-6111, +-6176, +-7000, +-100000, 2^15, 2^16, int and int32 extremes; precisions and widths up to 100001; rounding-mode bytes 0..255 incl. invalid ones; format specs from a grammar and from noise; strings and byte slices of random bytes, mutated literals, 70000-digit numerals, long '_' runs, JSON fragments; arbitrary Compose parts; big.Int/Rat/Float inputs) under a DefaultRoundingMode that may itself be invalid; asserted: no panic except the documented set, and those must panic; inputs (byte slices, big values), DefaultRoundingMode and a string returned earlier are unchanged; the same call twice gives identical bits; a watchdog reports any evaluation exceeding 120 s with its input. Sub-check concurrent: a generated list of 2..24 calls is executed by 2..16 goroutines in different orders for 1..3 rounds on shared argument values; every result must equal the sequential one and the race detector must stay silent (a detector abort is recovered from an in-flight case file). Non-trivial = call with a finite non-zero first operand, every concurrent list; distinct = distinct call or list.",
+		Fuzz:        []fuzzSpec{{"FuzzC20Ops", 120}},
+		Rule:        "the harness is built with the race detector. Sub-check call: rapid draws one of 82 exported entry points (every method and function of the package, the fmt.Formatter/Scanner paths through Sprintf/Sscan/Sscanf, encoding paths) with arguments from the all-pattern Decimal generator and hostile scalars (ints 0, +-1, +-35, +-6111, +-6176, +-7000, +-100000, 2^15, 2^16, int and int32 extremes; precisions and widths up to 100001; rounding-mode bytes 0..255 incl. invalid ones; format specs from a grammar and from noise; strings and byte slices of random bytes, mutated literals, 70000-digit numerals, long '_' runs, JSON fragments; arbitrary Compose parts; big.Int/Rat/Float inputs) under a DefaultRoundingMode that may itself be invalid; asserted: no panic except the documented set, and those must panic; inputs (byte slices, big values), DefaultRoundingMode and a string returned earlier are unchanged; the same call twice gives identical bits; a watchdog reports any evaluation exceeding 120 s with its input. Sub-check concurrent: a generated list of 2..24 calls is executed by 2..16 goroutines in different orders for 1..3 rounds on shared argument values; every result must equal the sequential one and the race detector must stay silent (a detector abort is recovered from an in-flight case file). Non-trivial = call with a finite non-zero first operand, every concurrent list; distinct = distinct call or list.",
 		Assumptions: append([]string{"the Go race detector (happens-before based) reports unsynchronised conflicting accesses that occur in the executed workload; interleavings are not enumerated", "precisions/widths above 100000 are outside the stated domain and are not generated for Format/Append"}, commonAssumptions...),
 	},
 	"C17": {
 		QuickShards: 8, ThoroughShards: 16,
-		Rule: "rapid draws arguments for Sqrt and Cbrt: all patterns, perfect squares/cubes of 1..17 / 1..11-digit integers +-1 unit at exponents of every residue, the Decimals on either side of ((c+1/2)*10^q)^k for full-precision c (roots as close to a rounding midpoint as a 34-digit argument allows), subnormal and top-of-range arguments, short coefficients at exponents -60..60; the result r is decided by the statement's own integer test ((c*1e20 -/+ (5e19+1)) * 10^(q-20))^k <= |d| <= ..., with u the format spacing at r; zeros, infinities, NaN and negative arguments per the statement. Non-trivial = argument that is not a perfect power; distinct = distinct (bits, function).",
+		Rule:        "rapid draws arguments for Sqrt and Cbrt: all patterns, perfect squares/cubes of 1..17 / 1..11-digit integers +-1 unit at exponents of every residue, the Decimals on either side of ((c+1/2)*10^q)^k for full-precision c (roots as close to a rounding midpoint as a 34-digit argument allows), subnormal and top-of-range arguments, short coefficients at exponents -60..60; the result r is decided by the statement's own integer test ((c*1e20 -/+ (5e19+1)) * 10^(q-20))^k <= |d| <= ..., with u the format spacing at r; zeros, infinities, NaN and negative arguments per the statement. Non-trivial = argument that is not a perfect power; distinct = distinct (bits, function).",
 		Assumptions: commonAssumptions,
 	},
 	"C16": {
 		QuickShards: 8, ThoroughShards: 16,
-		Rule: "one sub-check per function (Exp, Exp2, Exp10, Expm1, Log, Log2, Log10, Log1p) under DefaultRoundingMode = nearest-even. rapid draws arguments stratified by decimal magnitude (whole range down to 1e-6176, -40..5, 1e-k scales k=1..70), integers and simple fractions in every cohort, threshold windows on the integer part (14149/14220 for Exp and Expm1; 6211, 20413..20517 and the word boundaries 64/128/192/255 for Exp2; 6111..6178 for Exp10), arguments far beyond the thresholds; for logarithms the full exponent range, 1 +/- j*10^-k (k = 1..34), exact powers of two and ten in every cohort, every two-leading-digit table slot, the tiny-argument windows of Log1p. Oracle: 512-bit big.Float reference (validated against a 483-row mpmath fixture and identities); the result must lie within one unit in the last place of the format at the true value (decided on integers in 1e-6 ulp units), be +Inf only when the true result is within one ulp of the largest Decimal, and be exact for the representable results the statement lists. The maximum observed error per function is reported in notes. Non-trivial = every in-domain non-zero argument; distinct = distinct (function, bits).",
+		Rule:        "one sub-check per function (Exp, Exp2, Exp10, Expm1, Log, Log2, Log10, Log1p) under DefaultRoundingMode = nearest-even. rapid draws arguments stratified by decimal magnitude (whole range down to 1e-6176, -40..5, 1e-k scales k=1..70), integers and simple fractions in every cohort, threshold windows on the integer part (14149/14220 for Exp and Expm1; 6211, 20413..20517 and the word boundaries 64/128/192/255 for Exp2; 6111..6178 for Exp10), arguments far beyond the thresholds; for logarithms the full exponent range, 1 +/- j*10^-k (k = 1..34), exact powers of two and ten in every cohort, every two-leading-digit table slot, the tiny-argument windows of Log1p. Oracle: 512-bit big.Float reference (validated against a 483-row mpmath fixture and identities); the result must lie within one unit in the last place of the format at the true value (decided on integers in 1e-6 ulp units), be +Inf only when the true result is within one ulp of the largest Decimal, and be exact for the representable results the statement lists. The maximum observed error per function is reported in notes. Non-trivial = every in-domain non-zero argument; distinct = distinct (function, bits).",
 		Assumptions: append([]string{"math/big.Float arithmetic at 512 bits (about 450 bits effective after argument reduction) is the reference; results within 1e-6 ulp of the one-ulp bound cannot occur in practice and are not treated specially"}, commonAssumptions...),
 	},
 	"C18": {
 		QuickShards: 8, ThoroughShards: 16,
-		Rule: "rapid draws (x, y): y in {0, 1, -1} in any cohort; x = 10^k in any cohort with non-negative integer y (k*y steered to 6111, 6144, 6145, -6176, -6177) or y = +-1/2; negative x with odd / even / huge integer, half-integer and fractional y; x = 1 +- j*10^-k with |y| ~ 10^k; moderate x with integer, half-integer and arbitrary y; y chosen so that y*log10(x) lands within +-3 of 6144, 6145, -6176, -6177; extreme operands. Each pair under 6 modes and 6 DefaultRoundingMode values. Oracle: shortcut cases exactly as stated (RoundX for the reciprocal, exact powers of ten, NaN for negative base with non-integer exponent, sign (-1)^y); otherwise the 512-bit reference power with tolerance one ulp + |t|*|y|*(4e-37*|ln|x|| + 1e-55); +Inf / zero exactly when the exact power is beyond the range (the tolerance band at the threshold accepts both). The maximum observed error (in ulp and relative to the tolerance) is reported. Non-trivial = general-path pair or a power-of-ten / reciprocal shortcut; distinct = distinct (x bits, y bits).",
+		Rule:        "rapid draws (x, y): y in {0, 1, -1} in any cohort; x = 10^k in any cohort with non-negative integer y (k*y steered to 6111, 6144, 6145, -6176, -6177) or y = +-1/2; negative x with odd / even / huge integer, half-integer and fractional y; x = 1 +- j*10^-k with |y| ~ 10^k; moderate x with integer, half-integer and arbitrary y; y chosen so that y*log10(x) lands within +-3 of 6144, 6145, -6176, -6177; extreme operands. Each pair under 6 modes and 6 DefaultRoundingMode values. Oracle: shortcut cases exactly as stated (RoundX for the reciprocal, exact powers of ten, NaN for negative base with non-integer exponent, sign (-1)^y); otherwise the 512-bit reference power with tolerance one ulp + |t|*|y|*(4e-37*|ln|x|| + 1e-55); +Inf / zero exactly when the exact power is beyond the range (the tolerance band at the threshold accepts both). The maximum observed error (in ulp and relative to the tolerance) is reported. Non-trivial = general-path pair or a power-of-ten / reciprocal shortcut; distinct = distinct (x bits, y bits).",
 		Assumptions: append([]string{"math/big.Float arithmetic at 512 bits (bigfl, validated against an mpmath fixture) is the reference for the general path"}, commonAssumptions...),
 	},
 	"C01": {
 		QuickShards: 8, ThoroughShards: 16,
-		Rule: "rapid draws operand pairs (independent; exponent gap -45..45; tie/near-tie constructor at the 34/35-digit boundary; near-cancellation across cohorts; swallowed operand up to gap 12287; zeros; overflow edge) and add/sub; every pair is evaluated under all 6 modes and under all 6 DefaultRoundingMode values against the exact integer sum rounded by ref.RoundX. Non-trivial = the exact sum is not representable (rounding decides) or the operands cancel exactly; distinct = distinct (x bits, y bits, op).",
+		Rule:        "rapid draws operand pairs (independent; exponent gap -45..45; tie/near-tie constructor at the 34/35-digit boundary; near-cancellation across cohorts; swallowed operand up to gap 12287; zeros; overflow edge) and add/sub; every pair is evaluated under all 6 modes and under all 6 DefaultRoundingMode values against the exact integer sum rounded by ref.RoundX. Non-trivial = the exact sum is not representable (rounding decides) or the operands cancel exactly; distinct = distinct (x bits, y bits, op).",
 		Assumptions: commonAssumptions,
 	},
 }
